@@ -602,6 +602,32 @@ def validate_printf_model(run, values):
                 detail=f"{bad} renderings outside the model")
 
 
+def replay_record(rec):
+    """Re-runs a stored SMT counterexample on the real functions."""
+    from fractions import Fraction as F
+    src_root = os.environ.get("INDIPY_SRC", "/repo")
+    values, checks = real_funcs(src_root)
+    r = rec.get("record") or (rec.get("extra") or {}).get("record") or {}
+    out = {"record": r, "reproduced": False}
+    if "n" in r and "fmt" in r:
+        for what in ("validator", "denote", "roundtrip"):
+            rep = replay_render(values, checks, r["fmt"], F(r["n"]), what)
+            if rep:
+                out.update(reproduced=True, observed=rep)
+                break
+    elif "fmt" in r and "text" in r:
+        rep = replay_parse(values, r["fmt"], r["text"])
+        if rep:
+            out.update(reproduced=True, observed=rep)
+    elif "text" in r:
+        try:
+            checks.number(r["text"])
+            out.update(reproduced=indi_denote(r["text"]) is None, observed="checks.number accepts the text")
+        except ValueError:
+            pass
+    return out
+
+
 def main(tier, seed):
     t0 = time.perf_counter()
     src_root = os.environ.get("INDIPY_SRC", "/repo")
